@@ -27,6 +27,7 @@ undo; the thread scheduler uses that to learn which code touches shared state.
 from __future__ import annotations
 
 import collections
+import os
 import re
 import sys
 import types
@@ -68,9 +69,27 @@ def _copy(obj):
     return bytearray(obj)
 
 
+# interpreter-wide settings a library might change (and forget to put back): part of "the process" just as well
+_INTERP = [
+    ("sys.int_max_str_digits", lambda: sys.get_int_max_str_digits(), lambda v: sys.set_int_max_str_digits(v)),
+    ("sys.recursionlimit", lambda: sys.getrecursionlimit(), lambda v: sys.setrecursionlimit(v)),
+    ("sys.switchinterval", lambda: sys.getswitchinterval(), lambda v: sys.setswitchinterval(v)),
+]
+
+
+def interp_state():
+    """Cheap fingerprint of interpreter-wide settings and registries (used by the thread scheduler to notice that a thread
+    is parked while it has one of them changed)."""
+    import gc
+    import warnings
+    return (sys.get_int_max_str_digits(), sys.getrecursionlimit(), sys.getswitchinterval(), len(warnings.filters), len(os.environ),
+            id(sys.stdout), id(sys.stderr), id(sys.excepthook), len(sys.path), len(sys.meta_path), len(sys.path_hooks), gc.isenabled())
+
+
 def snapshot():
     if _snap["taken"]:
         return
+    _snap["interp"] = [(name, get(), setter) for name, get, setter in _INTERP]
     seen = set()
     containers = []      # (container object, copy of its contents)
     namespaces = []      # (kind, owner, saved {name: object}, label)
@@ -201,6 +220,13 @@ def restore():
     for fn in _snap["clearers"]:
         try:
             fn()
+        except Exception:
+            pass
+    for (name, value, setter), (_n, get, _s) in zip(_snap.get("interp", []), _INTERP):
+        try:
+            if get() != value:
+                undone.append(("interpreter-setting", name))
+                setter(value)
         except Exception:
             pass
     re.purge()
